@@ -261,9 +261,9 @@ func refJSLex(b []byte, regexpAt map[int]bool) *refJS {
 		r.bad("invalid UTF-8")
 		return r
 	}
-	lineStart := true // only whitespace/comments since the last line terminator
+	lineStart := true      // only whitespace/comments since the last line terminator
 	commentOnLine := false // a delimited comment precedes on this line: the library (pinned by its tests) does not treat --> as a comment then
-	var parenStack []int  // paren/bracket depth at each open template substitution
+	var parenStack []int   // paren/bracket depth at each open template substitution
 	parens := 0
 	afterNumber := false
 	var braceStack []bool // true: a template substitution opened this level
@@ -512,58 +512,58 @@ func refJSLex(b []byte, regexpAt map[int]bool) *refJS {
 
 // refKeywords: the reference's own table of reserved and contextual words (ECMA-262 §12.7.2 + the contextual ones the library types).
 var refKeywords = map[string]js.TokenType{
-	"await": js.AwaitToken,
-	"break": js.BreakToken,
-	"case": js.CaseToken,
-	"catch": js.CatchToken,
-	"class": js.ClassToken,
-	"const": js.ConstToken,
-	"continue": js.ContinueToken,
-	"debugger": js.DebuggerToken,
-	"default": js.DefaultToken,
-	"delete": js.DeleteToken,
-	"do": js.DoToken,
-	"else": js.ElseToken,
-	"enum": js.EnumToken,
-	"export": js.ExportToken,
-	"extends": js.ExtendsToken,
-	"false": js.FalseToken,
-	"finally": js.FinallyToken,
-	"for": js.ForToken,
-	"function": js.FunctionToken,
-	"if": js.IfToken,
-	"import": js.ImportToken,
-	"in": js.InToken,
+	"await":      js.AwaitToken,
+	"break":      js.BreakToken,
+	"case":       js.CaseToken,
+	"catch":      js.CatchToken,
+	"class":      js.ClassToken,
+	"const":      js.ConstToken,
+	"continue":   js.ContinueToken,
+	"debugger":   js.DebuggerToken,
+	"default":    js.DefaultToken,
+	"delete":     js.DeleteToken,
+	"do":         js.DoToken,
+	"else":       js.ElseToken,
+	"enum":       js.EnumToken,
+	"export":     js.ExportToken,
+	"extends":    js.ExtendsToken,
+	"false":      js.FalseToken,
+	"finally":    js.FinallyToken,
+	"for":        js.ForToken,
+	"function":   js.FunctionToken,
+	"if":         js.IfToken,
+	"import":     js.ImportToken,
+	"in":         js.InToken,
 	"instanceof": js.InstanceofToken,
-	"new": js.NewToken,
-	"null": js.NullToken,
-	"return": js.ReturnToken,
-	"super": js.SuperToken,
-	"switch": js.SwitchToken,
-	"this": js.ThisToken,
-	"throw": js.ThrowToken,
-	"true": js.TrueToken,
-	"try": js.TryToken,
-	"typeof": js.TypeofToken,
-	"var": js.VarToken,
-	"void": js.VoidToken,
-	"while": js.WhileToken,
-	"with": js.WithToken,
-	"yield": js.YieldToken,
-	"let": js.LetToken,
-	"static": js.StaticToken,
+	"new":        js.NewToken,
+	"null":       js.NullToken,
+	"return":     js.ReturnToken,
+	"super":      js.SuperToken,
+	"switch":     js.SwitchToken,
+	"this":       js.ThisToken,
+	"throw":      js.ThrowToken,
+	"true":       js.TrueToken,
+	"try":        js.TryToken,
+	"typeof":     js.TypeofToken,
+	"var":        js.VarToken,
+	"void":       js.VoidToken,
+	"while":      js.WhileToken,
+	"with":       js.WithToken,
+	"yield":      js.YieldToken,
+	"let":        js.LetToken,
+	"static":     js.StaticToken,
 	"implements": js.ImplementsToken,
-	"interface": js.InterfaceToken,
-	"package": js.PackageToken,
-	"private": js.PrivateToken,
-	"protected": js.ProtectedToken,
-	"public": js.PublicToken,
-	"as": js.AsToken,
-	"async": js.AsyncToken,
-	"from": js.FromToken,
-	"get": js.GetToken,
-	"meta": js.MetaToken,
-	"of": js.OfToken,
-	"set": js.SetToken,
-	"target": js.TargetToken,
+	"interface":  js.InterfaceToken,
+	"package":    js.PackageToken,
+	"private":    js.PrivateToken,
+	"protected":  js.ProtectedToken,
+	"public":     js.PublicToken,
+	"as":         js.AsToken,
+	"async":      js.AsyncToken,
+	"from":       js.FromToken,
+	"get":        js.GetToken,
+	"meta":       js.MetaToken,
+	"of":         js.OfToken,
+	"set":        js.SetToken,
+	"target":     js.TargetToken,
 }
